@@ -108,6 +108,10 @@ pub struct Scenario {
     pub password: String,
     /// request #0 carries a subtree filter with this many bytes of text (0 = plain <get/>)
     pub big_request: usize,
+    /// TLS and SSH: the TCP connection has small socket buffers (SO_SNDBUF of the client and SO_RCVBUF of
+    /// the peer = 4 KiB); TLS: the peer also reads slowly (4 KiB per virtual millisecond), so that a
+    /// large request meets a full socket
+    pub slow_peer: bool,
 }
 
 #[derive(Clone, Debug, PartialEq, Eq)]
@@ -204,7 +208,7 @@ async fn wait_messages(ps: &Ps, n: usize) -> Result<(), String> {
 /// hold back its second small write for up to a delayed-ACK interval of *real* time, during which
 /// the paused clock races ahead. The harness therefore finds the client's socket among its own
 /// descriptors (local address == the accepted connection's peer address) and disables Nagle.
-fn set_client_nodelay(client_addr: std::net::SocketAddr) {
+fn set_client_nodelay(client_addr: std::net::SocketAddr, small_sndbuf: bool) {
     let Ok(dir) = std::fs::read_dir("/proc/self/fd") else { return };
     for e in dir.flatten() {
         let Ok(fd) = e.file_name().to_string_lossy().parse::<i32>() else { continue };
@@ -221,8 +225,21 @@ fn set_client_nodelay(client_addr: std::net::SocketAddr) {
                 let one: libc::c_int = 1;
                 libc::setsockopt(fd, libc::IPPROTO_TCP, libc::TCP_NODELAY, std::ptr::addr_of!(one).cast(), 4);
                 libc::setsockopt(fd, libc::IPPROTO_TCP, libc::TCP_QUICKACK, std::ptr::addr_of!(one).cast(), 4);
+                if small_sndbuf {
+                    let sz: libc::c_int = 4096;
+                    libc::setsockopt(fd, libc::SOL_SOCKET, libc::SO_SNDBUF, std::ptr::addr_of!(sz).cast(), 4);
+                }
             }
         }
+    }
+}
+
+/// SO_RCVBUF = 4 KiB on a listening socket (inherited by the accepted connection)
+fn small_rcvbuf(fd: i32) {
+    let sz: libc::c_int = 4096;
+    // SAFETY: setsockopt on a descriptor of this process; failure is ignored
+    unsafe {
+        libc::setsockopt(fd, libc::SOL_SOCKET, libc::SO_RCVBUF, std::ptr::addr_of!(sz).cast(), 4);
     }
 }
 
@@ -634,13 +651,17 @@ pub fn run_scenario(ctx: &mut Ctx, sc: &Scenario) -> Outcome {
             Kind::Tls => {
                 let listener = TcpListener::bind("127.0.0.1:0").await.expect("bind");
                 let addr = listener.local_addr().expect("addr");
+                let slow_peer = sc.slow_peer;
+                if slow_peer {
+                    small_rcvbuf(listener.as_raw_fd());
+                }
                 let acceptor = tls_acceptor();
                 let ps3 = ps2.clone();
                 let out3 = out2.clone();
                 let peer = tokio::spawn(async move {
                     let (tcp, client_addr) = listener.accept().await.map_err(|e| e.to_string())?;
                     tcp.set_nodelay(true).ok();
-                    set_client_nodelay(client_addr);
+                    set_client_nodelay(client_addr, slow_peer);
                     let fd = tcp.as_raw_fd();
                     let tls = match acceptor.accept(tcp).await {
                         Ok(t) => t,
@@ -664,6 +685,9 @@ pub fn run_scenario(ctx: &mut Ctx, sc: &Scenario) -> Outcome {
                                     break;
                                 }
                                 Ok(n) => feed(&ps4, &buf[..n]),
+                            }
+                            if slow_peer {
+                                tokio::time::sleep(Duration::from_millis(1)).await;
                             }
                         }
                     });
@@ -694,6 +718,10 @@ pub fn run_scenario(ctx: &mut Ctx, sc: &Scenario) -> Outcome {
             Kind::Ssh => {
                 let listener = TcpListener::bind("127.0.0.1:0").await.expect("bind");
                 let addr = listener.local_addr().expect("addr");
+                let slow_peer = sc.slow_peer;
+                if slow_peer {
+                    small_rcvbuf(listener.as_raw_fd());
+                }
                 let mut cfg = russh::server::Config::default();
                 cfg.keys.push(russh_keys::key::KeyPair::generate_ed25519().expect("host key"));
                 cfg.auth_rejection_time = Duration::from_millis(10);
@@ -706,7 +734,7 @@ pub fn run_scenario(ctx: &mut Ctx, sc: &Scenario) -> Outcome {
                 let peer = tokio::spawn(async move {
                     let (tcp, client_addr) = listener.accept().await.map_err(|e| e.to_string())?;
                     tcp.set_nodelay(true).ok();
-                    set_client_nodelay(client_addr);
+                    set_client_nodelay(client_addr, slow_peer);
                     let fd = tcp.as_raw_fd();
                     let running = russh::server::run_stream(cfg, tcp, h2.clone()).await.map_err(|e| e.to_string())?;
                     let pump = tokio::spawn(running);
